@@ -144,29 +144,42 @@ fn gen_softmax(g: &mut Gen) {
     let max_n = if g.thorough { 5 } else { 4 };
     for n in 1..=max_n {
         g.op("@ fp".to_string());
-        // n distinct values sorted by the order the code sees (signed representative)
-        let mut pool: Vec<Fp> = vec![];
-        while pool.len() < n {
-            let v = Fp::new(g.rng.next() % P);
-            if !pool.contains(&v) {
-                pool.push(v);
+        // n distinct values sorted by the order the code sees (signed representative); three
+        // pools: random signs, all negative, all non-negative (a maximum computed from a wrong
+        // starting value, e.g. zero, shows only when every input lies on one side of it)
+        for sign in ["mixed", "negative", "nonnegative"] {
+            let mut pool: Vec<Fp> = vec![];
+            while pool.len() < n {
+                let v = Fp::new(g.rng.next() % P);
+                let ok = match sign {
+                    "negative" => v.signed() < 0,
+                    "nonnegative" => v.signed() >= 0,
+                    _ => true,
+                };
+                if ok && !pool.contains(&v) {
+                    pool.push(v);
+                }
             }
-        }
-        pool.sort_by(|a, b| a.partial_cmp(b).unwrap());
-        // all rank patterns (functions positions -> ranks): every ordering, ties included
-        let total = n.pow(n as u32);
-        for code in 0..total {
-            let mut c = code;
-            let mut ranks = vec![];
-            for _ in 0..n {
-                ranks.push(c % n);
-                c /= n;
+            pool.sort_by(|a, b| a.partial_cmp(b).unwrap());
+            // all rank patterns (functions positions -> ranks): every ordering, ties included
+            let total = n.pow(n as u32);
+            for code in 0..total {
+                if sign != "mixed" && n >= 4 && !g.thorough && code % 4 != 0 {
+                    continue;
+                }
+                let mut c = code;
+                let mut ranks = vec![];
+                for _ in 0..n {
+                    ranks.push(c % n);
+                    c /= n;
+                }
+                let v: Vec<String> = ranks.iter().map(|&r| pool[r].0.to_string()).collect();
+                let distinct = { let mut r = ranks.clone(); r.sort(); r.dedup(); r.len() };
+                g.op(format!("softmax {} via={}", v.join(","), LIST_VIAS[code % 4]));
+                g.count(&format!("softmax.length={}", n));
+                g.count(&format!("softmax.signs.{}", sign));
+                g.count(if distinct == n { "softmax.all_distinct" } else { "softmax.with_ties" });
             }
-            let v: Vec<String> = ranks.iter().map(|&r| pool[r].0.to_string()).collect();
-            let distinct = { let mut r = ranks.clone(); r.sort(); r.dedup(); r.len() };
-            g.op(format!("softmax {} via={}", v.join(","), LIST_VIAS[code % 4]));
-            g.count(&format!("softmax.length={}", n));
-            g.count(if distinct == n { "softmax.all_distinct" } else { "softmax.with_ties" });
         }
     }
     // values around the sign boundary of the order and random longer lists
